@@ -185,7 +185,7 @@ def run_mtf(part, unit):
     part.states += 1
     w = 0.5876
     Hy = [0.0, 1.0][unit['field']]
-    for (nr, G) in ((32, 128), (64, 256)):
+    for (nr, G) in ((32, 128), (64, 256), (48, 128), (33, 100)):       # grid / sampling integer and non-integer
         det = dict(lens=unit['lens'], Hy=Hy, num_rays=nr, grid=G, variant=v)
         cond = f"object={'infinite' if math.isinf(sp['obj']) else 'finite'}"
         m = FFTMTF(o, fields=[(0.0, Hy)], wavelength=w, num_rays=nr, grid_size=G)
